@@ -228,6 +228,79 @@ func (q Seq) Expand() []bool {
 				out[i] = !out[i]
 			}
 		}
+	case "exactones": // exactly A ones, shuffled
+		for i := range out {
+			out[i] = i < q.A
+		}
+		for i := n - 1; i > 0; i-- {
+			j := r.Intn(i + 1)
+			out[i], out[j] = out[j], out[i]
+		}
+	case "autocorrA": // exactly A disagreements between x and x shifted by B: x[i+B] = x[i] xor e[i], e has A ones (shuffled)
+		d := q.B
+		e := make([]bool, n-d)
+		for i := range e {
+			e[i] = i < q.A
+		}
+		for i := len(e) - 1; i > 0; i-- {
+			j := r.Intn(i + 1)
+			e[i], e[j] = e[j], e[i]
+		}
+		for i := 0; i < d; i++ {
+			out[i] = r.Uint64()&1 == 1
+		}
+		for i := 0; i+d < n; i++ {
+			out[i+d] = out[i] != e[i]
+		}
+	case "derivA": // the B-th binary derivative (length n-B) has exactly A ones: integrate a shuffled sequence B times
+		k := q.B
+		cur := make([]bool, n-k)
+		for i := range cur {
+			cur[i] = i < q.A
+		}
+		for i := len(cur) - 1; i > 0; i-- {
+			j := r.Intn(i + 1)
+			cur[i], cur[j] = cur[j], cur[i]
+		}
+		for s := 0; s < k; s++ {
+			nx := make([]bool, len(cur)+1)
+			nx[0] = r.Uint64()&1 == 1
+			for i, v := range cur {
+				nx[i+1] = nx[i] != v
+			}
+			cur = nx
+		}
+		copy(out, cur)
+	case "exactruns": // n/2 ones, n/2 zeros (n even), exactly A runs (A even): random compositions of n/2 into A/2 parts
+		half, parts := n/2, q.A/2
+		comp := func() []int {
+			// choose parts-1 distinct cut points in 1..half-1
+			cuts := map[int]bool{}
+			for len(cuts) < parts-1 {
+				cuts[1+r.Intn(half-1)] = true
+			}
+			var ls []int
+			last := 0
+			for c := 1; c <= half; c++ {
+				if cuts[c] || c == half {
+					ls = append(ls, c-last)
+					last = c
+				}
+			}
+			return ls
+		}
+		a, b := comp(), comp()
+		pos := 0
+		for i := 0; i < parts; i++ {
+			for j := 0; j < a[i]; j++ {
+				out[pos] = true
+				pos++
+			}
+			for j := 0; j < b[i]; j++ {
+				out[pos] = false
+				pos++
+			}
+		}
 	case "balanced": // exactly n/2 ones, shuffled
 		for i := range out {
 			out[i] = i < n/2
